@@ -225,7 +225,12 @@ open U128 (W)
   | gen_tie [I128.dec, U128.dec, I128.ofU, I128.toU]
   | (simp only [Gen.Int128_Dec, gen_eq]; rfl)
 @[gen_eq] theorem Int128_Mul_eq : Gen.Int128_Mul = I128.mul := by
-  funext i n; gen_tie [I128.mul]
+  funext i n
+  first
+  | -- the same sum of products, possibly regrouped (`omega` proves a regrouping too, but with a proof term that the
+    -- kernel needs minutes to check)
+    (simp only [gen_def, I128.mul, eq_self_iff_true]; first | done | with_reducible rfl | ac_rfl)
+  | gen_tie [I128.mul]
 @[gen_eq] theorem Int128_Mul64_eq : Gen.Int128_Mul64 = I128.mulW := by
   funext i n
   first
